@@ -21,7 +21,7 @@ E == Tr[l]
 
 Fresh == [pods |-> <<>>, ctrs |-> <<>>, sp |-> 0, sc |-> 0, np |-> 0, nc |-> 0, more |-> FALSE, pending |-> FALSE,
           sends |-> 0, calls |-> 0, failed |-> FALSE, okdone |-> FALSE, lastover |-> 0, updates |-> FALSE,
-          activated |-> FALSE, minobjs |-> 8, synced |-> FALSE, grew |-> FALSE, accepted |-> FALSE, again |-> FALSE]
+          activated |-> FALSE, minobjs |-> 8, synced |-> FALSE, expect |-> "", grew |-> FALSE, accepted |-> FALSE, again |-> FALSE]
 
 TraceInit == l = 1 /\ bad = <<>> /\ st = Fresh
              /\ stats = [scenarios |-> 0, sends |-> 0, oversize |-> 0, delivered |-> 0, failures |-> 0, rejected |-> 0]
@@ -36,7 +36,7 @@ Skip == l' = l + 1 /\ UNCHANGED <<bad, stats, st>>
 RemP == Len(st.pods) - st.sp
 RemC == Len(st.ctrs) - st.sc
 
-TBegin == Go("scenarios", [Fresh EXCEPT !.pods = E.pods, !.ctrs = E.ctrs, !.minobjs = E.minobjs])
+TBegin == Go("scenarios", [Fresh EXCEPT !.pods = E.pods, !.ctrs = E.ctrs, !.minobjs = E.minobjs, !.expect = E.expect])
 
 TSend ==
   IF st.pending THEN Reject("C09-protocol", <<"send while a message is outstanding">>)
@@ -80,6 +80,8 @@ TSynced ==
        ELSE Go("sends", [st EXCEPT !.synced = TRUE])
   ELSE IF st.calls # 0 THEN Reject("C09-failure-after-delivery", <<E.err>>)
        ELSE IF ~(st.lastover > 0 /\ st.lastover <= st.minobjs) THEN Reject("C09-unjustified-failure", <<E.err, st.lastover>>)
+       \* a state the specified policy (SyncChunk) transmits must not be given up on
+       ELSE IF st.expect = "ok" THEN Reject("C09-unjustified-failure", <<E.err, "the specified policy transmits this state", st.np, st.nc>>)
        ELSE IF st.grew THEN Reject("C09-unjustified-failure", <<E.err, "a chunk grew after an accepted message", st.np, st.nc>>)
        ELSE Go("failures", [st EXCEPT !.failed = TRUE])
 
